@@ -202,6 +202,9 @@ def reuse_ok(cpp):
         or cpp.startswith('MEMBER_IS')
 
 
+LINE2CPP = {}      # model input line -> the C++ expression it stands for (for replays)
+
+
 def generate(rng, ntrees, ntu=8, drop=frozenset()):
     """-> (files: {name: source}, lines: [model input lines in evaluation order], trees, blocks)
     blocks: {(tu, first line, last line): (block id, C++ text)} — `drop` lists block ids to leave out (expressions
@@ -234,6 +237,7 @@ def generate(rng, ntrees, ntu=8, drop=frozenset()):
                 for vt, v in zip(vtoks, vals):
                     orc = oracle(tr.pats, v if ty in ('str', 'cstr') else None)
                     lines.append('%s | %s | %s' % (' '.join(tr.toks), vt, ' '.join(orc) if orc else '-'))
+                    LINE2CPP.setdefault(lines[-1], '%s  evaluated on %s by %s' % (tr.cpp, vt, run))
             # a matcher held in a named variable, composed (copied, not consumed) and then used again: composing must
             # leave the operand as it was
             if tr.toks[0] not in ('val', 'any', 'not', 'deref') and reuse_ok(tr.cpp) and (len(tr.cpp) % 3 != 0) and (bid + 'r') not in drop:
